@@ -154,4 +154,46 @@ theorem C04_reject_out_of_order (S : Schema) (cv : Conv) (tag : Str) (x tl : Opt
   obtain ⟨e, he⟩ := key
   exact ⟨e, by simp [he, bind, Except.bind]⟩
 
+/-! ### the tree route ends in the keyword route -/
+
+/-- the tree route ends in the keyword route: whatever `from_etree` returns for an aggregate node was returned
+    by the class constructor on the positional and keyword arguments collected from the children -/
+theorem fromEtree_is_construct (S : Schema) (cv : Conv) (tag : Str) (x tl : Option Str) (children : List Tree)
+    (n : Node) (h : fromEtree S cv (.node tag x tl children) = .ok n) :
+    ∃ ci args kw, S.findIdx? tag = some ci ∧ construct S cv ci args kw = .ok n := by
+  simp only [fromEtree, convertNode] at h
+  cases hf : S.findIdx? tag with
+  | none => simp [hf] at h
+  | some ci =>
+    simp only [hf] at h
+    cases hc : S.cls? ci with
+    | none => simp [hc] at h
+    | some c =>
+      simp only [hc] at h
+      by_cases hemp : children.isEmpty = true
+      · simp only [hemp, if_true] at h
+        exact ⟨ci, [], [], rfl, h⟩
+      · simp only [hemp, Bool.false_eq_true, if_false] at h
+        cases hfold : foldChildren c children (childInsts S cv children) Accum.init with
+        | error e => simp [hfold, bind, Except.bind] at h
+        | ok acc =>
+          simp only [hfold, bind, Except.bind] at h
+          exact ⟨ci, acc.args, acc.kwargs, rfl, h⟩
+
+/-- C04 (consequence, tree route): every instance `from_etree` returns satisfies the declared groups, holds per
+    attribute what its converter accepted, and has only permitted members — because it was built by the
+    constructor (`C04_sound_kw`). -/
+theorem C04_sound_tree (S : Schema) (cv : Conv) (tag : Str) (x tl : Option Str) (children : List Tree) (n : Node)
+    (h : fromEtree S cv (.node tag x tl children) = .ok n) :
+    ∃ ci args kw c fields items, S.findIdx? tag = some ci ∧ n = .agg ci fields items ∧ S.cls? ci = some c ∧
+      extraRule S c.extra args kw = .ok () ∧
+      (∀ g ∈ c.optMutex, mutexCount kw g ≤ 1) ∧ (∀ g ∈ c.reqMutex, mutexCount kw g = 1) ∧
+      FieldsMatch (fun a v => setAttr S cv a ((lookup a.name kw).getD (.val .none)) = .ok (some v))
+        (specNoList c) fields ∧
+      applyArgs S cv c args = .ok items ∧
+      (∀ k ∈ kw.map (·.1), k ∈ (specNoList c).map (·.name)) := by
+  obtain ⟨ci, args, kw, hf, hc⟩ := fromEtree_is_construct S cv tag x tl children n h
+  obtain ⟨c, fields, items, rfl, hcls, h1, h2, h3, h4, h5, h6⟩ := C04_sound_kw S cv ci args kw n hc
+  exact ⟨ci, args, kw, c, fields, items, hf, rfl, hcls, h1, h2, h3, h4, h5, h6⟩
+
 end Ofx.Agg
